@@ -65,6 +65,7 @@ type Contract struct {
 	Ensures    []Clause
 	Returns    SExpr
 	ReturnsSrc string
+	ReturnsDef bool // the returns clause NAMES the result of a pure deterministic function (definitional: assumed, not proved)
 	Panics     string // "", "never", "may", "iff"
 	PanicsCond SExpr
 	PanicsSrc  string
@@ -375,7 +376,10 @@ func (cs *ContractSet) LoadContractFile(path string, pkgName string) error {
 					}
 					curLoop.Invs = append(curLoop.Invs, cl)
 				}
-			case "returns":
+			case "returns", "returns-def":
+				if kw == "returns-def" {
+					cur.ReturnsDef = true
+				}
 				e, err := ParseSpec(rest)
 				if err != nil {
 					return fail(i, "%v", err)
